@@ -151,6 +151,9 @@ def rh(tier):
         Arr(Ref(S_S), (None,)),
         URef(S_S, S_D2),
         St(STR, S2_REF),
+        St(Sc("i32"), A_DD),
+        St(Arr(STR, (2, 2), (1, 0)), Sc("u8")),
+        St(Arr(A_DS, (2,)), STR),
     ]
     if tier == "thorough":
         ts += [
